@@ -1,5 +1,5 @@
 (* executor ops for C06 / C14 (PMT, PSI accessors) and the Coq serialisers used by the generators *)
-From Gots Require Import Base.Prelude Exec.ExecBase Model.Psi Model.Pmt Model.StreamType Spec.PmtSpec.
+From Gots Require Import Base.Prelude Exec.ExecBase Model.Psi Model.Pmt Model.StreamType Model.Accumulator Spec.PmtSpec.
 Import Pmt.
 
 (* ---- observations ---- *)
@@ -72,6 +72,61 @@ Definition item_of (v : val) : option item :=
 Definition vfilter (r : option (list bytes) * option (list N)) : val :=
   VL [vopt (fun l => VL (map VB l)) (fst r); vopt (fun l => VL (map vn l)) (snd r)].
 
+
+(* ---- one PMT object observed after every step (goexec/pmt.go pmt.hist): [0 qs] queries, [1 rm] removal ---- *)
+Definition lags_of (x : pmt) (pid : N) : bool :=
+  StreamType.pmt_lags_by_pid (map (fun e => (epid e, stype e)) (streams x)) (Z.of_N pid).
+Fixpoint hist_run (p : pmt) (script : list val) : option (list val) :=
+  match script with
+  | [] => Some []
+  | VL [VI 0%Z; VL qs] :: t =>
+    match ns_of qs, hist_run p t with
+    | Some q, Some r =>
+      Some (VL [VL [VL (map (fun x => vbool (pid_exists p x)) q); VL (map (fun x => vbool (lags_of p x)) q)]; vpmt p] :: r)
+    | _, _ => None
+    end
+  | VL [VI 1%Z; VL rm] :: t =>
+    match ns_of rm with
+    | Some r0 =>
+      let p' := remove_elementary_streams p r0 in
+      match hist_run p' t with Some r => Some (VL [VL []; vpmt p'] :: r) | None => None end
+    | None => None
+    end
+  | VL [VI 2%Z] :: t =>        (* the caller holds on to ElementaryStreams(): no effect on a value *)
+    match hist_run p t with Some r => Some (VL [VL []; vpmt p] :: r) | None => None end
+  | _ => None
+  end.
+
+(* ---- several PMTs through ONE accumulator (pmt.acchist): each table = its packets; Reset between tables.
+   In Gallina Bytes() is a value, so a PMT decoded from it cannot change when the accumulator goes on. ---- *)
+Definition done_pred : Accumulator.pred :=
+  fun b => match done_func b with Ok d => (d, None) | Err e => (false, Some e) | _ => (false, None) end.
+Fixpoint acc_write_all (a : Accumulator.acc) (pks : list bytes) : Res (Accumulator.acc * list val) :=
+  match pks with
+  | [] => Ok (a, [])
+  | p :: t =>
+    let? (a', r) := Accumulator.write_packet done_pred a p in
+    let? (a'', rs) := acc_write_all a' t in
+    Ok (a'', match snd r with Some e => vn e | None => VI 0%Z end :: rs)
+  end.
+Fixpoint acchist_run (first : bool) (a : Accumulator.acc) (tables : list (list bytes)) : Res (list val * list val) :=
+  match tables with
+  | [] => Ok ([], [])
+  | tb :: t =>
+    let a0 := if first then a else Accumulator.reset a in
+    let? (a1, codes) := acc_write_all a0 tb in
+    let r := new_pmt (Accumulator.get_bytes a1) in
+    let? (outs, finals) := acchist_run false a1 t in
+    Ok (VL [VL codes; vres vpmt r] :: outs,
+        match r with Ok p => VL [vpmt p] | _ => VL [] end :: finals)
+  end.
+Fixpoint tables_of (l : list val) : option (list (list bytes)) :=
+  match l with
+  | [] => Some []
+  | VL ps :: t => match bs_of ps, tables_of t with Some a, Some r => Some (a :: r) | _, _ => None end
+  | _ => None
+  end.
+
 Open Scope string_scope.
 Definition ops : list op := [
   ("pmt.parse", fun a => match a with [VB b] => VL [vres vpmt (new_pmt b); unchanged] | _ => vbad end);
@@ -120,6 +175,23 @@ Definition ops : list op := [
                         VL [VL (map (fun x => vbool (lags p x)) q); VL (map (fun x => vbool (lags p' x)) q);
                             VL (map (fun x => vbool (pid_exists p' x)) q); VL (map (fun x => vbool (lags p' x)) q)]) (new_pmt b)
        | _, _ => vbad end
+     | _ => vbad end);
+  ("pmt.hist", fun a => match a with
+     | [VB b; VL script] =>
+       match new_pmt b with
+       | Ok p => match hist_run p script with Some r => vok (VL (vpmt p :: r)) | None => vbad end
+       | r => vres vpmt r
+       end
+     | _ => vbad end);
+  ("pmt.acchist", fun a => match a with
+     | [VL ts] =>
+       match tables_of ts with
+       | Some tables =>
+         match acchist_run true Accumulator.new_acc tables with
+         | Ok (outs, finals) => VL (outs ++ [VL finals])
+         | Err e => VL [VI 1%Z; vn e] | Panic => VL [VI 2%Z] | Diverge => VL [VI 3%Z]
+         end
+       | None => vbad end
      | _ => vbad end);
   ("pmt.computecrc", fun a => match a with [VB b] => VB (crc_model b) | _ => vbad end);
   (* ---- serialisers (modelexec only) ---- *)
